@@ -772,6 +772,22 @@ Section Merge2.
     rewrite alookup_merge_assoc, Ha, Hb. f_equal. rewrite pts_M_select, map_app. f_equal.
     apply (select_map point V [] zero g). apply flt_range.
   Qed.
+  (* every point field of the merged data set has one row per merged point — also the fields that only one of the two
+     pieces carries (zero rows on the other piece's points; the count is the one repaired by the fix of F-C08b) *)
+  Theorem merged_point_rows_length :
+    (forall name r, In (name, r) (pdata A) -> length r = n1) ->
+    (forall name r, In (name, r) (pdata B) -> length r = n2) ->
+    forall name r, In (name, r) (pdata M) -> length r = length (pts M).
+  Proof.
+    intros HrA HrB name r Hin. rewrite pts_M_select, app_length, select_length. fold n1.
+    unfold M, merge2_fixed in Hin. cbn [pdata] in Hin. fold d n2 flt in Hin.
+    apply in_merge_assoc in Hin. destruct Hin as [[a [Ha Hv]]|[b [Hb Hv]]].
+    - destruct (alookup name (pdata B)) as [b|] eqn:Eb; subst r.
+      + rewrite app_length, select_length, (HrA name a Ha). reflexivity.
+      + rewrite app_length, repeat_length, (HrA name a Ha). reflexivity.
+    - subst r. rewrite app_length, repeat_length, select_length. reflexivity.
+  Qed.
+
 End Merge2.
 
 Arguments has_pfield {V}.
